@@ -1485,3 +1485,123 @@ Proof.
   { apply (reject_bad_volume _ (A1 ivs) x); [reflexivity|exact Hin|exact Hc]. }
   rewrite Herr in Tlw. discriminate.
 Qed.
+
+(* ------------------------------------------------------------------ ids, index map and volumes agree *)
+
+Lemma all_digits_uint d : all_digits (NilEmpty.string_of_uint d) = true.
+Proof. induction d as [|d IH|d IH|d IH|d IH|d IH|d IH|d IH|d IH|d IH|d IH]; cbn; [reflexivity|exact IH..]. Qed.
+
+Lemma all_digits_pad2N n : all_digits (pad2N n) = true.
+Proof.
+  unfold pad2N, decN. destruct (n <? 10)%N; [|apply all_digits_uint].
+  cbn [all_digits]. rewrite all_digits_uint. reflexivity.
+Qed.
+
+Lemma nat_row_letter r : r < 26 -> nat_of_ascii (row_letter r) = 65 + r.
+Proof. intro H. unfold row_letter. apply nat_ascii_embedding. lia. Qed.
+
+Lemma ctor_id_rc_well_id r c : r < 26 -> id_rc (well_id r c) = Some (r, c).
+Proof.
+  intro Hr. unfold id_rc. unfold well_id at 1. cbv beta iota zeta.
+  rewrite (nat_row_letter r Hr).
+  replace ((65 <=? 65 + r)%nat && (65 + r <=? 90)%nat)%bool with true
+    by (symmetry; apply Bool.andb_true_iff; split; apply Nat.leb_le; lia).
+  unfold pad2 at 1 2. rewrite all_digits_pad2N, parse_decN_pad2N.
+  replace (1 <=? N.of_nat (c + 1))%N with true by (symmetry; apply N.leb_le; lia).
+  rewrite Nnat.Nat2N.id.
+  replace (65 + r - 65) with r by lia. replace (c + 1 - 1) with c by lia.
+  change (String (row_letter r) (pad2N (N.of_nat (c + 1)))) with (well_id r c).
+  rewrite String.eqb_refl. reflexivity.
+Qed.
+
+Lemma ctor_wells_table_nth g r c : r < n_row_ids g -> c < g_cols g ->
+  nth c (nth r (wells_table g) []) EmptyString = well_id r c.
+Proof.
+  intros Hr Hc. unfold wells_table.
+  rewrite (nth_map_lt _ _ 0) by (rewrite seq_length; exact Hr). rewrite seq_nth by exact Hr.
+  rewrite (nth_map_lt _ _ 0) by (rewrite seq_length; exact Hc). rewrite seq_nth by exact Hc.
+  reflexivity.
+Qed.
+
+(** every id of the table is a key of the index map and denotes a cell of the volume array;
+    virtual rows share the single real row *)
+Lemma table_index_volumes L : wf_labware L ->
+  forall r c, r < n_row_ids (lw_geom L) -> c < g_cols (lw_geom L) ->
+  let real_row := match g_vrows (lw_geom L) with Some _ => 0 | None => r end in
+  lw_index L (nth c (nth r (wells_table (lw_geom L)) []) EmptyString)
+    = Some (real_row * g_cols (lw_geom L) + c) /\
+  real_row * g_cols (lw_geom L) + c < length (lw_vols L).
+Proof.
+  intros [[Hg [Hlen _]] _] r c Hr Hc. rewrite (ctor_wells_table_nth _ _ _ Hr Hc).
+  assert (Hr26 : r < 26) by (unfold n_row_ids in Hr; lia).
+  unfold lw_index, well_index. rewrite (ctor_id_rc_well_id _ _ Hr26).
+  replace (r <? n_row_ids (lw_geom L))%nat with true by (symmetry; apply Nat.ltb_lt; exact Hr).
+  replace (c <? g_cols (lw_geom L))%nat with true by (symmetry; apply Nat.ltb_lt; exact Hc).
+  cbn [andb]. unfold flat_index. cbn [fst snd]. cbn zeta. split; [reflexivity|].
+  rewrite Hlen. unfold n_wells. destruct Hg as [Hrows [_ Hv]]. unfold n_row_ids in Hr.
+  destruct (g_vrows (lw_geom L)) as [v|]; [nia|]. 
+  assert (r < g_rows (lw_geom L)) by lia. nia.
+Qed.
+
+Lemma mk_labware_table_index a L : mk_labware a = Ok L ->
+  forall r c, r < n_row_ids (lw_geom L) -> c < g_cols (lw_geom L) ->
+  let real_row := match g_vrows (lw_geom L) with Some _ => 0 | None => r end in
+  lw_index L (nth c (nth r (wells_table (lw_geom L)) []) EmptyString)
+    = Some (real_row * g_cols (lw_geom L) + c) /\
+  real_row * g_cols (lw_geom L) + c < length (lw_vols L).
+Proof. intro H. exact (table_index_volumes L (mk_labware_wf _ _ H)). Qed.
+
+Lemma mk_trough_table_index a L : mk_trough a = Ok L ->
+  forall r c, r < n_row_ids (lw_geom L) -> c < g_cols (lw_geom L) ->
+  lw_index L (nth c (nth r (wells_table (lw_geom L)) []) EmptyString) = Some c /\
+  c < length (lw_vols L).
+Proof.
+  intros H r c Hr Hc. destruct (mk_trough_geometry _ _ H) as [_ [_ [_ [[v [_ [Hv _]]] _]]]].
+  destruct (table_index_volumes L (mk_trough_wf _ _ H) r c Hr Hc) as [H1 H2].
+  rewrite Hv in H1, H2. cbn [Nat.mul Nat.add] in H1, H2. split; assumption.
+Qed.
+
+Lemma mk_trough_index_range a L w i : mk_trough a = Ok L -> lw_index L w = Some i ->
+  i < length (lw_vols L).
+Proof. intros H Hi. inv_trough H. exact (mk_labware_index_range _ _ _ _ Tlw Hi). Qed.
+
+(* ------------------------------------------------------------------ composition, in closed form *)
+
+(** the component of real well [i] of a [Labware]: the given name, else the default *)
+Definition plate_component (a : lw_args) (L : labware) (i : nat) : string :=
+  let w := well_id (i / g_cols (lw_geom L)) (i mod g_cols (lw_geom L)) in
+  match assoc_get w (a_names a) with
+  | Some (Some s) => s
+  | _ => if (1 <? g_rows (lw_geom L))%nat then (a_name a ++ "." ++ w)%string else a_name a
+  end.
+
+Lemma lw_comp_name_eq a L i : lw_comp_name a L i = plate_component a L i.
+Proof.
+  unfold lw_comp_name, plate_component, comp_name, given_name, id_of. cbv zeta.
+  destruct (assoc_get _ (a_names a)) as [[s|]|]; reflexivity.
+Qed.
+
+Lemma mk_labware_composition_closed a L : mk_labware a = Ok L ->
+  let n := (g_rows (lw_geom L) * g_cols (lw_geom L))%nat in
+  NoDup (map fst (lw_comp L)) /\
+  Forall (fun ka => length (snd ka) = n) (lw_comp L) /\
+  (forall k arr, In (k, arr) (lw_comp L) ->
+     exists i, i < n /\ ~ nth i (lw_vols L) 0%Q == 0 /\ plate_component a L i = k) /\
+  (forall i, i < n -> nth i (lw_vols L) 0%Q == 0 ->
+     (forall s, assoc_get (well_id (i / g_cols (lw_geom L)) (i mod g_cols (lw_geom L))) (a_names a)
+                <> Some (Some s)) /\
+     forall k arr, In (k, arr) (lw_comp L) -> nth i arr 0%Q = 0%Q) /\
+  (forall i, i < n -> ~ nth i (lw_vols L) 0%Q == 0 ->
+     exists arr, In (plate_component a L i, arr) (lw_comp L) /\ nth i arr 0%Q = 1%Q /\
+       forall k' arr', In (k', arr') (lw_comp L) -> k' <> plate_component a L i -> nth i arr' 0%Q = 0%Q).
+Proof.
+  intro H. destruct (mk_labware_composition _ _ H) as [Hnd [Hlen [Hkeys [Hzero Hone]]]].
+  unfold n_wells in Hlen, Hkeys, Hzero, Hone. cbv zeta.
+  split; [exact Hnd|]. split; [exact Hlen|]. split; [|split].
+  - intros k arr Hin. destruct (Hkeys k arr Hin) as [i Hi]. exists i.
+    rewrite <- lw_comp_name_eq. exact Hi.
+  - intros i Hi Hv. destruct (Hzero i Hi Hv) as [Hg Hz]. split; [|exact Hz].
+    intros s Hs. unfold given_name, id_of in Hg. rewrite Hs in Hg. discriminate.
+  - intros i Hi Hv. destruct (Hone i Hi Hv) as [arr Harr]. exists arr.
+    rewrite <- lw_comp_name_eq. exact Harr.
+Qed.
